@@ -401,16 +401,29 @@ BTreeItems_slice(BTreeItems *self, Py_ssize_t ilow, Py_ssize_t ihigh)
         assert(ilow < ihigh);
         --ihigh;  /* exclusive -> inclusive */
 
+        PyObject *result;
+
         if (BTreeItems_seek(self, ilow) < 0)
             return NULL;
         lowbucket = self->currentbucket;
         lowoffset = self->currentoffset;
+        /* The search finger may hold the only reference to this bucket
+        * (the tree can have dropped it since), and the second seek moves
+        * the finger. */
+        Py_INCREF(lowbucket);
 
         if (BTreeItems_seek(self, ihigh) < 0)
+        {
+            Py_DECREF(lowbucket);
             return NULL;
+        }
 
         highbucket = self->currentbucket;
         highoffset = self->currentoffset;
+        result = newBTreeItems(self->kind,
+                               lowbucket, lowoffset, highbucket, highoffset);
+        Py_DECREF(lowbucket);
+        return result;
     }
     return newBTreeItems(self->kind,
                          lowbucket, lowoffset, highbucket, highoffset);
